@@ -23,10 +23,10 @@ from .common import Reporter, Scratch, ToolError, log, tlc, write_cfg, REPO
 from .e2e import first_diff
 
 SGR = re.compile(rb"\x1b\[[0-9;]*m")
-PSEP = {"colon": ":", "bar": "|", "spaced": " - "}
+PSEP = {"colon": ":", "bar": "|", "spaced": " - ", "wide": " \u2500\u253c\u2500\u2500\u253c\u2500 "}
 SEP = {"empty": ("", b""), "nl": ("\\n", b"\n"), "dashes": ("--\\n", b"--\n"), "tab": ("\\t", b"\t")}
 ZONE = {"utc": (["-u"], 0), "local": (["-l"], 0), "plus0530": (["-z", "+05:30"], 330), "minus0800": (["--prepend-tz=-08:00"], -480)}
-FMT = {"default": None, "iso": "%Y-%m-%dT%H:%M:%S%:z", "time6": "%H:%M:%S%.6f"}
+FMT = {"default": None, "iso": "%Y-%m-%dT%H:%M:%S%:z", "time6": "%H:%M:%S%.6f", "verbose": "%A, %d %B %Y %H:%M:%S%.6f %:z"}
 
 
 def width(s):
@@ -42,6 +42,10 @@ def fmt_dt(secs, nanos, off_min, fmt):
                                                              nanos // 10**6, sign, hh, mm)
     if fmt == "iso":
         return "%04d-%02d-%02dT%02d:%02d:%02d%s%02d:%02d" % (t.tm_year, t.tm_mon, t.tm_mday, t.tm_hour, t.tm_min, t.tm_sec, sign, hh, mm)
+    if fmt == "verbose":
+        import calendar
+        return "%s, %02d %s %04d %02d:%02d:%02d.%06d %s%02d:%02d" % (calendar.day_name[t.tm_wday], t.tm_mday, calendar.month_name[t.tm_mon], t.tm_year,
+                                                                     t.tm_hour, t.tm_min, t.tm_sec, nanos // 1000, sign, hh, mm)
     return "%02d:%02d:%02d.%06d" % (t.tm_hour, t.tm_min, t.tm_sec, nanos // 1000)
 
 
@@ -143,6 +147,8 @@ def run(pid, tier, seed):
             keep = {}
             for t in tuples:
                 keep.setdefault((t[0], t[2], t[6]), t)
+                if t[2] != "none":
+                    keep.setdefault(("fmt", t[3], t[4], t[6]), t)      # every (format, field separator, colour) triple as well
             sample = list(keep.values()) + rng.sample(tuples, min(len(tuples), 90))
             tuples = list(dict.fromkeys(sample))
         sets = source_sets(sc)
